@@ -82,34 +82,7 @@ class Engine(DbEngine):
                 g.ops.append(("reopen",))
                 put(2, 1200)
             out.append(("rebuild-then-grow", g.render()))
-        # a growth that FAILS part-way (the environment refuses to extend the file after k chunks: soft RLIMIT_FSIZE), then
-        # stores that fit into what was gained, then stores that have to grow the file again; every offset ever returned is
-        # re-read after every op.  Judged on the implementation alone (the model has no failing file system).
-        for i in range(10 if tier == "quick" else 200):
-            sub = random.Random(rng.getrandbits(64))
-            g = HistGen(sub, {"new": 1}, 0).run()
-            obs = "obs %s L0" % C.tl(C.tb(i_) for i_ in g.ids)
-            ops = []
-            def ev(size, ch=b"g"):
-                e = g.new_event(kind=1, pk=sub.choice(AUTHORS), tags=[])
-                e["content"] = ch * size
-                e["id"] = fake_id(e)
-                return "store " + C.t_event(e)
-            for j in range(sub.choice([5, 6, 8])):
-                ops.append(ev(sub.choice([40000, 50000, 60000]), b"B"))      # a map larger than LMDB's data file
-            for rnd in range(sub.choice([1, 1, 2])):
-                ops.append("fsizelimit " + C.tn(2048 * sub.choice([1, 2, 2, 3]) + sub.choice([0, 100, 1000])))
-                ops.append(ev(sub.choice([9000, 12000, 20000])))                # needs 5..10 chunks: fails after 1..3
-                ops.append("fsizeunlimit")
-                for j in range(sub.choice([2, 3, 5])):
-                    ops.append(ev(sub.choice([300, 900, 1500])))                # fit into the chunks gained by the failed growth
-                ops.append(ev(sub.choice([3000, 5000, 9000])))                  # has to grow again
-                for j in range(sub.choice([1, 3])):
-                    ops.append(ev(sub.choice([10, 900, 2100])))
-            ops.append("reopen")
-            ops.append(ev(100))
-            line = "dbhist " + C.tl(C.tb(n_) for n_ in g.names) + " ; " + obs + "".join(" ; " + x + " ; " + obs for x in ops)
-            out.append(("failed-growth", line))
+        out += failed_growth_cases(rng, tier)
         return out
 
     def skip_model(self, gcls):
@@ -118,36 +91,79 @@ class Engine(DbEngine):
     def judge(self, gcls, line, model_out, impl_outs):
         if gcls != "failed-growth":
             return super().judge(gcls, line, model_out, impl_outs)
-        import re
-        from engine import Verdict
-        from dbjudge import parse_obs
-        kinds = [x.split(" ", 1)[0] for x in line.split(" ; ")[1:]]
-        nfail = 0
-        for prof in self.profiles:
-            o = impl_outs[prof]
-            if not o.startswith("dbhist "):
-                return Verdict(oracle_ok=False, cls="harness-died", detail="[%s] %s" % (prof, o[:100]), outcome="died")
-            segs = o[len("dbhist "):].split(" | ")
-            if len(segs) != len(kinds):
-                return Verdict(oracle_ok=False, cls="store-died", detail="[%s] history stopped after op %d: %s" % (prof, len(segs), segs[-1][:80]), outcome="died")
-            stored = []
-            for n, (k, seg) in enumerate(zip(kinds, segs)):
-                if seg == "panic":
-                    return Verdict(oracle_ok=False, cls="panic", detail="[%s] op %d (%s) panicked" % (prof, n, k), outcome="panic")
-                if k == "store":
-                    m = re.match(r"ok (\d+) h=(\w+)", seg)
-                    if m:
-                        stored.append((int(m.group(1)), m.group(2)))
-                    else:
-                        nfail += 1
-                elif k == "reopen" and not seg.startswith("ok"):
-                    return Verdict(oracle_ok=False, cls="reopen-fails", detail="[%s] reopen returned %s" % (prof, seg), outcome="reopen")
-                elif k == "obs":
-                    got = parse_obs(seg).get("offs", [])
-                    for j, (off, h) in enumerate(stored):
-                        if j >= len(got) or got[j] != h:
-                            return Verdict(oracle_ok=False, cls="readback-differs",
-                                           detail="[%s] op %d: offset %d reads back %s, stored %s (after a growth that failed part-way)" % (prof, n, off, got[j] if j < len(got) else "?", h), outcome="readback")
-                    if len(set(x[0] for x in stored)) != len(stored):
-                        return Verdict(oracle_ok=False, cls="offset-reused", detail="[%s] an offset was returned twice" % prof, outcome="reuse")
-        return Verdict(outcome="failed-growth/%s" % ("some-failed" if nfail else "none-failed"), nontrivial=True)
+        return judge_failed_growth(self.profiles, line, impl_outs)
+
+
+def failed_growth_cases(rng, tier, cls="failed-growth", reopen_after_failure=0.35, n=None):
+    """a growth that FAILS part-way (the environment refuses to extend the file after k chunks: soft RLIMIT_FSIZE), optionally
+    a reopen while the file has whole spare chunks beyond the end marker, then stores that fit into what was gained, then
+    stores that have to grow the file again; every offset ever returned is re-read after every op.  Judged on the
+    implementation alone (the model has no failing file system)."""
+    import random
+    import common as C
+    from dbgen import HistGen, AUTHORS, fake_id
+    out = []
+    for i in range(n if n is not None else (10 if tier == "quick" else 200)):
+        sub = random.Random(rng.getrandbits(64))
+        g = HistGen(sub, {"new": 1}, 0).run()
+        obs = "obs %s L0" % C.tl(C.tb(i_) for i_ in g.ids)
+        ops = []
+        def ev(size, ch=b"g"):
+            e = g.new_event(kind=1, pk=sub.choice(AUTHORS), tags=[])
+            e["content"] = ch * size
+            e["id"] = fake_id(e)
+            return "store " + C.t_event(e)
+        for j in range(sub.choice([5, 6, 8])):
+            ops.append(ev(sub.choice([40000, 50000, 60000]), b"B"))      # a map larger than LMDB's data file
+        for rnd in range(sub.choice([1, 1, 2])):
+            ops.append("fsizelimit " + C.tn(2048 * sub.choice([1, 2, 2, 3, 4]) + sub.choice([0, 100, 1000])))
+            ops.append(ev(sub.choice([9000, 12000, 20000])))                # needs 5..10 chunks: fails after 1..4
+            ops.append("fsizeunlimit")
+            if sub.random() < reopen_after_failure:
+                ops.append("reopen")                                        # opened with whole spare chunks beyond the marker
+            for j in range(sub.choice([2, 3, 5])):
+                ops.append(ev(sub.choice([300, 900, 1500])))                # fit into the chunks gained by the failed growth
+            ops.append(ev(sub.choice([3000, 5000, 9000])))                  # has to grow again
+            for j in range(sub.choice([1, 3])):
+                ops.append(ev(sub.choice([10, 900, 2100])))
+        ops.append("reopen")
+        ops.append(ev(100))
+        line = "dbhist " + C.tl(C.tb(n_) for n_ in g.names) + " ; " + obs + "".join(" ; " + x + " ; " + obs for x in ops)
+        out.append((cls, line))
+    return out
+
+
+def judge_failed_growth(profiles, line, impl_outs):
+    import re
+    from engine import Verdict
+    from dbjudge import parse_obs
+    kinds = [x.split(" ", 1)[0] for x in line.split(" ; ")[1:]]
+    nfail = 0
+    for prof in profiles:
+        o = impl_outs[prof]
+        if not o.startswith("dbhist "):
+            return Verdict(oracle_ok=False, cls="harness-died", detail="[%s] %s" % (prof, o[:100]), outcome="died")
+        segs = o[len("dbhist "):].split(" | ")
+        if len(segs) != len(kinds):
+            return Verdict(oracle_ok=False, cls="store-died", detail="[%s] history stopped after op %d: %s" % (prof, len(segs), segs[-1][:80]), outcome="died")
+        stored = []
+        for n, (k, seg) in enumerate(zip(kinds, segs)):
+            if seg == "panic":
+                return Verdict(oracle_ok=False, cls="panic", detail="[%s] op %d (%s) panicked" % (prof, n, k), outcome="panic")
+            if k == "store":
+                m = re.match(r"ok (\d+) h=(\w+)", seg)
+                if m:
+                    stored.append((int(m.group(1)), m.group(2)))
+                else:
+                    nfail += 1
+            elif k == "reopen" and not seg.startswith("ok"):
+                return Verdict(oracle_ok=False, cls="reopen-fails", detail="[%s] reopen returned %s" % (prof, seg), outcome="reopen")
+            elif k == "obs":
+                got = parse_obs(seg).get("offs", [])
+                for j, (off, h) in enumerate(stored):
+                    if j >= len(got) or got[j] != h:
+                        return Verdict(oracle_ok=False, cls="readback-differs",
+                                       detail="[%s] op %d: offset %d reads back %s, stored %s (after a growth that failed part-way)" % (prof, n, off, got[j] if j < len(got) else "?", h), outcome="readback")
+                if len(set(x[0] for x in stored)) != len(stored):
+                    return Verdict(oracle_ok=False, cls="offset-reused", detail="[%s] an offset was returned twice" % prof, outcome="reuse")
+    return Verdict(outcome="failed-growth/%s" % ("some-failed" if nfail else "none-failed"), nontrivial=True)
